@@ -643,6 +643,72 @@ def gen_wake(rng, tier, n):
     return cases
 
 
+def gen_wake2(rng, tier, n):
+    """schedules for the extended model: producer pushes into a real tokio channel polled by
+    the tick body / raw wakes, at 11 program points (10 = inside the body after the source
+    poll), ticks that defer (schedule_subgraph(true) from the body), optional inline executor"""
+    cases = []
+    occs = 2
+    places = [(p, o) for p in range(11) for o in range(occs)]
+    for a in places:
+        for kind in ("push", "wake"):
+            cases.append({"k": "wake2", "acts": [[a[0], a[1], kind]], "defers": [], "inline": False, "src": "exh"})
+            if a[0] == 9:
+                cases.append({"k": "wake2", "acts": [[a[0], a[1], kind]], "defers": [], "inline": True, "src": "exh-inline"})
+    for d in ([0], [1], [0, 1]):
+        cases.append({"k": "wake2", "acts": [], "defers": d, "inline": False, "src": "exh"})
+        for a in places:
+            cases.append({"k": "wake2", "acts": [[a[0], a[1], "push"]], "defers": d, "inline": False, "src": "exh"})
+    if tier == "thorough":
+        for i, a in enumerate(places):
+            for b in places[i:]:
+                cases.append({"k": "wake2", "acts": [[a[0], a[1], "push"], [b[0], b[1], "push"]], "defers": [], "inline": False, "src": "exh"})
+    k = n if tier == "quick" else n * 20
+    for j in range(k):
+        acts, seen9 = [], set()
+        for _ in range(rng.range(2, 5)):
+            w = (rng.below(11), rng.below(3))
+            if w[0] == 9:
+                if w in seen9:
+                    continue
+                seen9.add(w)
+            acts.append([w[0], w[1], "push" if rng.chance(2, 3) else "wake"])
+        inline = j % 2 == 1
+        if inline and not seen9:
+            acts.append([9, rng.below(2), "push"])
+        defers = [t for t in range(4) if rng.chance(1, 4)]
+        cases.append({"k": "wake2", "acts": acts, "defers": defers, "inline": inline,
+                      "src": "rnd-inline" if inline else "rnd"})
+    return cases
+
+
+def g_ev2(e):
+    q = "ModelWake2Chk."
+    if e[0] == "p":
+        return q + "EPoint %s" % g_nat(e[1])
+    if e[0] == "w":
+        return q + "EAct %s" % g_nat(e[1])
+    if e[0] == "t":
+        return q + "ETick %s" % g_nat(e[1])
+    return q + {"d": "EDefer", "park": "EPark"}.get(e[0], "EBad")
+
+
+def wake2_term(case, res):
+    if "log" not in res:
+        return 3
+    acts = g_lst(["(%s, %s, %s)" % (g_nat(a[0]), g_nat(a[1]), "true" if a[2] == "push" else "false") for a in case["acts"]])
+    return "(ModelWake2Chk.chk27b %s %s %s)" % (acts, g_lst([g_nat(d) for d in case["defers"]]),
+                                                g_lst([g_ev2(e) for e in res["log"]]))
+
+
+def shrink_wake2(case):
+    ws = case["acts"]
+    cands = [dict(case, acts=ws[:i] + ws[i + 1:], src="shrunk") for i in range(len(ws))]
+    ds = case["defers"]
+    cands += [dict(case, defers=ds[:i] + ds[i + 1:], src="shrunk") for i in range(len(ds))]
+    return cands
+
+
 def g_wevent(e):
     if e[0] == "p":
         return "EPoint %s" % g_nat(e[1])
@@ -670,7 +736,17 @@ def shrink_wake(case):
 def wake_distribution(cases, results):
     d = {"nwakes": {}, "points": {}, "occ": {}, "src": {}, "ticks": {}, "fired": 0, "unfired": 0,
          "inline_executor": 0, "inline_wakes_fired_while_idle": 0}
+    d["wake2_cases"], d["wake2_pushes"], d["wake2_defer_ticks"], d["wake2_items_consumed"] = 0, 0, 0, 0
     for c, r in zip(cases, results):
+        if c["k"] == "wake2":
+            d["wake2_cases"] += 1
+            d["wake2_pushes"] += sum(1 for a in c["acts"] if a[2] == "push")
+            d["wake2_defer_ticks"] += sum(1 for e in r.get("log", []) if e[0] == "d")
+            d["wake2_items_consumed"] += sum(e[1] for e in r.get("log", []) if e[0] == "t")
+            if c.get("inline"):
+                d["inline_executor"] += 1
+            d["src"][c.get("src", "?")] = d["src"].get(c.get("src", "?"), 0) + 1
+            continue
         d["nwakes"][str(len(c["wakes"]))] = d["nwakes"].get(str(len(c["wakes"])), 0) + 1
         d["src"][c.get("src", "?")] = d["src"].get(c.get("src", "?"), 0) + 1
         for w in c["wakes"]:
